@@ -111,3 +111,100 @@ pub fn build_instance(prog: &Arc<Program>, inputs: &Inputs, tamper: &[Tamper]) -
 pub fn min_degree(rows: usize) -> usize {
     (rows + 6).next_power_of_two()
 }
+
+// ---------------------------------------------------------------------------
+// Specimens: a compiled random circuit with honest proofs, as bytes.
+// ---------------------------------------------------------------------------
+
+use crate::gen::build::{self, GenCfg};
+use crate::refimpl::verifier as rv;
+use dusk_bytes::{DeserializableSlice, Serializable};
+
+pub struct Specimen {
+    pub prog: Arc<Program>,
+    pub inputs: Inputs,
+    pub compiled: Compiled,
+    pub rows: usize,
+    pub label: Vec<u8>,
+    pub vbytes: Vec<u8>,
+    pub proof_v3: Vec<u8>,
+    pub proof_v2: Vec<u8>,
+    pub pi: Vec<BlsScalar>,
+    pub families: Vec<&'static str>,
+}
+
+pub fn to_plonk_version(v: rv::Version) -> PlonkVersion {
+    match v {
+        rv::Version::V1 => PlonkVersion::V1,
+        rv::Version::V2 => PlonkVersion::V2,
+        rv::Version::V3 => PlonkVersion::V3,
+    }
+}
+
+/// Random satisfied program of `rows` rows, compiled at its minimal admitting
+/// capacity, proved honestly under V3 and V2.
+pub fn specimen<R: RngCore + CryptoRng>(rng: &mut R, cfg: &GenCfg, rows: usize, label: &[u8]) -> Result<Specimen, String> {
+    let b = build::random_program(rng, cfg, rows);
+    let families: Vec<&'static str> = b.families.iter().copied().collect();
+    let (prog, inputs) = b.finish();
+    let pp = crate::util::pp(min_degree(rows));
+    let compiled = compile(&pp, label, &prog).map_err(|f| format!("compile: {}", f.text()))?;
+    let p3 = prove(&compiled.prover, &prog, &inputs, &[], rng, PlonkVersion::V3);
+    let (proof3, pi) = p3.result.map_err(|f| format!("prove V3: {}", f.text()))?;
+    let p2 = prove(&compiled.prover, &prog, &inputs, &[], rng, PlonkVersion::V2);
+    let (proof2, _) = p2.result.map_err(|f| format!("prove V2: {}", f.text()))?;
+    let vbytes = compiled.verifier.to_bytes();
+    Ok(Specimen {
+        prog,
+        inputs,
+        rows,
+        label: label.to_vec(),
+        vbytes,
+        proof_v3: proof3.to_bytes().to_vec(),
+        proof_v2: proof2.to_bytes().to_vec(),
+        pi,
+        families,
+        compiled,
+    })
+}
+
+#[derive(Debug, Clone, PartialEq, Eq)]
+pub enum RealDecision {
+    Accept,
+    Reject(String),
+    Panic(String),
+}
+
+impl RealDecision {
+    pub fn accepts(&self) -> bool {
+        matches!(self, RealDecision::Accept)
+    }
+}
+
+/// The real decision on a (verifier bytes, proof bytes, public inputs,
+/// version) triple: decode both with the checked decoders, then verify.
+pub fn real_decide(vbytes: &[u8], pbytes: &[u8], pi: &[BlsScalar], version: PlonkVersion) -> RealDecision {
+    let r = guard(|| -> Result<(), Error> {
+        let v = Verifier::try_from_bytes(vbytes)?;
+        let p = Proof::from_slice(pbytes).map_err(Error::from)?;
+        v.verify_with_version(&p, pi, version)
+    });
+    match r {
+        Ok(Ok(())) => RealDecision::Accept,
+        Ok(Err(e)) => RealDecision::Reject(format!("{e:?}")),
+        Err(p) => RealDecision::Panic(p),
+    }
+}
+
+/// Same, with an already decoded verifier (hot path for proof mutations).
+pub fn real_decide_with(v: &Verifier, pbytes: &[u8], pi: &[BlsScalar], version: PlonkVersion) -> RealDecision {
+    let r = guard(|| -> Result<(), Error> {
+        let p = Proof::from_slice(pbytes).map_err(Error::from)?;
+        v.verify_with_version(&p, pi, version)
+    });
+    match r {
+        Ok(Ok(())) => RealDecision::Accept,
+        Ok(Err(e)) => RealDecision::Reject(format!("{e:?}")),
+        Err(p) => RealDecision::Panic(p),
+    }
+}
